@@ -19,6 +19,10 @@ CLAIMS = {
   text="As C08 for ValidReplayer, with expiry: invariant (well-formed ring, dead slots zero, expiries sorted, ttl > 0) established by NewValidReplayer and preserved by Put, GC and doGC; doGC/GC/Put drop only a prefix of events whose expiry is <= the clock reading and keep every other event in order (also across resize, whose precondition newSize > count is proved at both call sites); Put stores expiry = clock reading + ttl; Replay's trace is exactly the later events with expiry > the clock reading taken in this call whose topics intersect, in Put order, then one Flush.",
   note=COMMON + "time.Time is an integer instant. The non-decreasing clock of the property is the assumed contract of the abstract callee Now (its reading plus ttl is >= every stored expiry; never the zero instant). now+ttl is assumed not to overflow.",
   ref="DESIGN.md section 6, C09"),
+ "C14": dict(
+  text="One contract per construction route, each proved on the real code for all inputs: newMessageField/NewID/NewType (error <=> the value has a CR or LF; error => unset), ID/Type (precondition single-line, otherwise must panics), UnmarshalText, UnmarshalJSON (json.Unmarshal yields any string), Scan (nil, string, []byte, other driver types), Message.UnmarshalText (ID/Type/chunk values come from FieldParser.Next, whose contract gives CR/LF-free values; loop invariant over all fields), Upgrade (Last-Event-Id header absent/empty/invalid => unset, else set to it). 'Set => single line' is the postcondition of every route; the single-line predicate is the spec function over bytes proved equal to isSingleLine via NewlineIndex's loop invariant.",
+  note=COMMON + "json.Unmarshal and database/sql driver values are modelled as arbitrary strings / dynamic types; EventID/EventType values can only be built in-package (unexported fields), which is what makes the per-route argument complete; MarshalText/MarshalJSON/Value only read.",
+  ref="DESIGN.md section 6, C14"),
  "C18": dict(
   text="Structural retention bound: FiniteReplayer never changes len(buf) (N slots) and Put's frame shows nothing else is stored; for ValidReplayer every slot outside the live window holds the zero value after every operation (enqueue below capacity, dequeue zeroes the vacated slot, resize copies only the live window into a fresh buffer) and after a collection no live slot holds an event with expiry <= the clock reading - so an evicted or collected message is referenced by no slot.",
   note=COMMON + "That Go's garbage collector frees what is unreferenced, and that no reference to a replaced backing array survives, is outside the contracts (value-sequence model of slices).",
